@@ -1100,6 +1100,7 @@ type RandReq struct {
 	GraphEvery int     `json:"graphevery"`
 	GraphOut   string  `json:"graphout"`
 	Bias       string  `json:"bias"` // "grow": mostly inserts into one table (deep trees)
+	LongBad    int     `json:"longbad"`  // > 0: some refused INSERTs have up to this many rows, the invalid one anywhere
 	PFail      float64 `json:"pfail"`    // share of the explicit flushes in which one page write fails (I/O error)
 	PageRT     bool    `json:"pagert"`   // C12 at store level: after every flush each page in the file decodes to what the cache held
 	OrderOut   string  `json:"orderout"` // order trace (locks, stamps, data-file and log writes) for WalOrder.tla
@@ -1411,6 +1412,16 @@ func randomRun(rq RandReq) (res Result) {
 			st.A = "insert"
 			st.Rows = []int{-1 - rng.Intn(4), val()} // the first row is invalid: nothing may change
 			st.Rows = st.Rows[:1+rng.Intn(2)]
+			if rq.LongBad > 0 && rng.Intn(3) == 0 {
+				// a long statement whose k-th row is the invalid one, k anywhere: still nothing may change
+				n := 2 + rng.Intn(rq.LongBad)
+				k := rng.Intn(n)
+				st.Rows = make([]int, n)
+				for j := range st.Rows {
+					st.Rows[j] = val()
+				}
+				st.Rows[k] = -1 - rng.Intn(2)*3 // wrong type, or INT out of range
+			}
 			evm["rows"] = st.Rows
 		case p < 93:
 			st.A = "create"
